@@ -23,9 +23,10 @@ type Gen struct {
 	comments   float64 // probability of a comment between statements
 	oneLineP   float64 // probability that a small map is written on one line
 	depthMax   int
+	depth      int // nesting depth inside shapes (0 = board root)
 
 	names   []string // object names declared at the current board root (for edges / references)
-	edges   [][2]string
+	edges   [][3]string
 	classes []string
 	vars    []string
 	arrVars []string
@@ -264,7 +265,10 @@ func (g *Gen) attr() string {
 	case 1:
 		return g.kw("label") + g.sep() + g.label()
 	case 2:
-		return g.kwPath("style", g.pick("opacity", "stroke-width")) + g.sep() + g.pick("0.5", "1")
+		if g.chance(0.5) {
+			return g.kwPath("style", "opacity") + g.sep() + g.pick("0.5", "1")
+		}
+		return g.kwPath("style", "stroke-width") + g.sep() + g.pick("2", "1")
 	case 3:
 		return g.kw("style") + g.sep() + "{" + g.styleKV() + "}"
 	case 4:
@@ -272,6 +276,9 @@ func (g *Gen) attr() string {
 	case 5:
 		return g.kw("width") + g.sep() + g.pick("100", "240")
 	case 6:
+		if g.depth > 1 {
+			return g.kw("height") + g.sep() + g.pick("80", "120")
+		}
 		return g.kw("near") + g.sep() + g.pick(nearConsts...)
 	case 7:
 		return g.kw("link") + g.sep() + g.pick("https://example.com", "\"https://d2lang.com/tour?q=1#x\"")
@@ -422,7 +429,7 @@ func (g *Gen) shapeStmt(depth int) stmt {
 			return stmt{lines: []string{n + g.sep() + "|md", g.indentUnit + "# title", "", g.indentUnit + "- item **b**", "|"}}
 		case 2:
 			g.f("string:block-pipes")
-			return stmt{lines: []string{n + g.sep() + "||ts", g.indentUnit + "type A = B | C", g.indentUnit + g.indentUnit + "let x = a || b", "||"}}
+			return stmt{lines: []string{n + g.sep() + "|||ts", g.indentUnit + "type A = B | C", g.indentUnit + g.indentUnit + "let x = a || b", "|||"}}
 		default:
 			g.f("string:block-pipes")
 			return stmt{lines: []string{n + g.sep() + "|||md a || b | c |||"}}
@@ -437,8 +444,10 @@ func (g *Gen) shapeBody(depth int) []stmt {
 	if g.chance(0.05) {
 		k = 0
 	}
-	saved := g.names
-	g.names = nil
+	saved, savedE := g.names, g.edges
+	g.names, g.edges = nil, nil
+	g.depth++
+	defer func() { g.depth-- }()
 	var body []stmt
 	for i := 0; i < k; i++ {
 		switch g.R.Intn(6) {
@@ -454,14 +463,20 @@ func (g *Gen) shapeBody(depth int) []stmt {
 			body = append(body, g.shapeStmt(depth))
 		}
 	}
-	g.names = saved
+	g.names, g.edges = saved, savedE
 	return body
 }
 
 func (g *Gen) edgeStmt() stmt {
+	if g.chance(0.85) {
+		saved := g.kwCase
+		g.kwCase = 0
+		defer func() { g.kwCase = saved }()
+	}
 	a, b := g.quoteIfNeeded(g.declName()), g.quoteIfNeeded(g.declName())
-	g.edges = append(g.edges, [2]string{a, b})
-	s := a + g.arrow() + b
+	ar := g.arrow()
+	g.edges = append(g.edges, [3]string{a, b, ar})
+	s := a + ar + b
 	g.f("edge")
 	if g.chance(0.2) {
 		g.f("edge:chain")
@@ -481,6 +496,11 @@ func (g *Gen) edgeStmt() stmt {
 }
 
 func (g *Gen) edgeRefStmt() stmt {
+	if g.chance(0.85) {
+		saved := g.kwCase
+		g.kwCase = 0
+		defer func() { g.kwCase = saved }()
+	}
 	if len(g.edges) == 0 {
 		return g.edgeStmt()
 	}
@@ -491,7 +511,11 @@ func (g *Gen) edgeRefStmt() stmt {
 	} else if idx == "[0]" {
 		g.f("edge:index")
 	}
-	ref := "(" + e[0] + g.arrow() + e[1] + ")" + idx
+	ar := e[2]
+	if g.chance(0.1) {
+		ar = g.arrow() // may name an edge that does not exist (compile error, still a C03 input)
+	}
+	ref := "(" + e[0] + ar + e[1] + ")" + idx
 	g.f("edge:group")
 	switch g.R.Intn(3) {
 	case 0:
@@ -589,6 +613,11 @@ func (g *Gen) varUseStmt() stmt {
 
 func (g *Gen) classesStmt() stmt {
 	g.f("classes")
+	if g.chance(0.85) {
+		saved := g.kwCase
+		g.kwCase = 0
+		defer func() { g.kwCase = saved }()
+	}
 	var body []stmt
 	k := 1 + g.R.Intn(2)
 	for i := 0; i < k; i++ {
@@ -617,7 +646,7 @@ func (g *Gen) importStmt() stmt {
 		g.f("import:nested-path")
 		g.files["sub/inner.d2"] = "k: {w: deep}\n"
 		n := g.quoteIfNeeded(g.declName())
-		return stmt{lines: []string{n + g.sep() + g.pick("@sub/inner", "@sub/../sub/inner", "@\"sub/inner\"", "@sub/inner.k")}}
+		return stmt{lines: []string{n + g.sep() + g.pick("@sub/inner", "@\"sub/../sub/inner\"", "@\"sub/inner\"", "@sub/inner.k")}}
 	default:
 		g.f("import:spread-in-map")
 		g.files["imp_attrs.d2"] = "style.stroke: blue\nshape: oval\n"
@@ -677,11 +706,16 @@ func (g *Gen) boardStmt(depth int, prof map[string]float64) stmt {
 		bn := g.pick("b", "first", "L", "s", "1", "step one", "x")
 		bn = g.quoteIfNeeded(fmt.Sprintf("%s%d", bn, i))
 		saved, savedE := g.names, g.edges
+		sv, sa, sm, sc := g.vars, g.arrVars, g.mapVars, g.classes
 		if kind == "layers" {
 			g.names, g.edges = nil, nil
 		}
+		sd := g.depth
+		g.depth = 0
 		body := g.boardBody(depth+1, prof, false)
+		g.depth = sd
 		g.names, g.edges = saved, savedE
+		g.vars, g.arrVars, g.mapVars, g.classes = sv, sa, sm, sc
 		boards = append(boards, stmt{lines: g.block(bn+g.sep(), body)})
 	}
 	return stmt{lines: g.block(kwText+g.sep(), boards), board: true}
@@ -773,6 +807,7 @@ func (g *Gen) Program(profile string) Program {
 	g.feat = map[string]bool{}
 	g.files = nil
 	g.names, g.edges, g.classes, g.vars, g.arrVars, g.mapVars = nil, nil, nil, nil, nil, nil
+	g.depth = 0
 	g.indentUnit = "  "
 	g.eol = "\n"
 	g.kwCase = 0.04
